@@ -354,6 +354,24 @@ def zip_operands(mod: Module, cls: str, core: str = '') -> T.Tuple[str, str, str
     return own_chain, theirs[0], info.theirs
 
 
+def _signum_form(e: ast.AST) -> T.Optional[T.Tuple[ast.AST, ast.AST]]:
+    """`(x > y) - (x < y)` (either comparison may be written mirrored: `y < x`) -> (x, y): the expression is positive, zero or
+    negative as x is greater than, equal to or less than y (bool arithmetic; ASSUMPTIONS: builtin comparison is a total order on
+    the compared values).  None for any other shape."""
+    if not (isinstance(e, ast.BinOp) and isinstance(e.op, ast.Sub)):
+        return None
+
+    def pair(c: ast.AST) -> T.Optional[T.Tuple[ast.AST, ast.AST]]:
+        # (greater, lesser) operand of a strict comparison
+        if isinstance(c, ast.Compare) and len(c.ops) == 1 and isinstance(c.ops[0], (ast.Gt, ast.Lt)):
+            return (c.left, c.comparators[0]) if isinstance(c.ops[0], ast.Gt) else (c.comparators[0], c.left)
+        return None
+    a, b = pair(e.left), pair(e.right)
+    if a is None or b is None or norm(a[0]) != norm(b[1]) or norm(a[1]) != norm(b[0]):
+        return None
+    return a
+
+
 def _three_way_keys(ctx: RuleCtx, mod: Module, qn: str, fn: T.Any, info: 'CoreInfo', argname: T.Dict[str, str]) -> T.List[T.Tuple[str, str]]:
     """Ranking keys of a core that answers negative / zero / positive (the dunders compare the answer with 0).
     A loop row that returns a constant of known sign under `f(ours) != f(theirs)` and one more test tells the direction
@@ -397,7 +415,18 @@ def _three_way_keys(ctx: RuleCtx, mod: Module, qn: str, fn: T.Any, info: 'CoreIn
         if r.outcome[0] in ('fall', 'continue'):
             continue
         sg = sign(r.outcome[1]) if r.outcome[0] == 'return' else None
-        if sg is None:
+        signum: T.Optional[T.Tuple[str, str]] = None
+        if sg is None and r.outcome[0] == 'return':
+            # `(x > y) - (x < y)`: the sign of comparing x with y (round 13) - the key and its direction are in the expression itself
+            try:
+                cf = _signum_form(ast.parse(r.outcome[1], mode='eval').body)
+            except SyntaxError:
+                cf = None
+            if cf is not None:
+                (qx, tx), (qy, ty) = proj(norm(cf[0])), proj(norm(cf[1]))
+                if qx == qy and tx != ty and len(tx) == len(ty) == 1:
+                    signum = (qx, 'asc' if tx == {'ours'} else 'desc')
+        if sg is None and signum is None:
             raise Undecided(f'{qn}: cannot read the three-way result of row {r!r}')
         # the guard `f(ours) != f(theirs)` of this row (the last inequality on the path)
         guards = [a for a, v in r.conds.items() if a.kind == 'cmp' and a.args[0] == 'eq' and v is False]
@@ -412,7 +441,11 @@ def _three_way_keys(ctx: RuleCtx, mod: Module, qn: str, fn: T.Any, info: 'CoreIn
             if a.kind == 'cmp' and a.args[0] == 'eq' and v is True:
                 continue
         direction: T.Optional[str] = None
-        for a, v in r.conds.items():
+        if signum is not None:
+            if signum[0] != key:
+                raise Undecided(f'{qn}: row {r!r} is guarded by a difference of {key} but answers by comparing {signum[0]}')
+            direction = signum[1]
+        for a, v in ([] if signum is not None else r.conds.items()):
             if a.kind == 'cmp' and a.args[0] == 'lt':
                 (q1, t1), (q2, t2) = proj(a.args[1]), proj(a.args[2])
                 if q1 == q2 == key and t1 != t2 and len(t1) == len(t2) == 1:
@@ -444,7 +477,9 @@ def _three_way_keys(ctx: RuleCtx, mod: Module, qn: str, fn: T.Any, info: 'CoreIn
         raise Undecided(f'{qn}: expected `return g(ours) - g(theirs)` after the component loop')
     sides2 = {k: v for k, v in sides.items() if not k.startswith('=')}
     sa, sb = _Side(sides2), _Side(sides2)
-    ta, tb = norm(sa.visit(copy.deepcopy(after[0].value.left))), norm(sb.visit(copy.deepcopy(after[0].value.right)))
+    # `(g(a) > g(b)) - (g(a) < g(b))` has the sign of `g(a) - g(b)`
+    left, right = _signum_form(after[0].value) or (after[0].value.left, after[0].value.right)
+    ta, tb = norm(sa.visit(copy.deepcopy(left))), norm(sb.visit(copy.deepcopy(right)))
     if ta != tb or sa.seen == sb.seen or len(sa.seen) != 1 or len(sb.seen) != 1:
         raise Undecided(f'{qn}: cannot read the difference {short(after[0].value)}')
     keys.append((ta, 'asc' if sa.seen == {'ours'} else 'desc'))
